@@ -22,7 +22,7 @@ import xeofs as xe
 PROP = "C09"
 TAGS = {"C09"}
 INV = ["C09_ScaleEntersByAlphaPowers", "C09_Descending", "C09_ScfSumsToOne", "C09_CorrelationsGenuine", "C09_FactorDependsOnNAlphaOnly",
-       "C10_NamedIsSpecialCase", "C09_McaFactorOne", "Emit"]
+       "C10_NamedIsSpecialCase", "C09_McaFactorOne", "XC_FveAtMostOne", "XC_FveYXVanishesIffUncorrelated", "XC_PredictIsProjection", "Emit"]
 
 
 def cfg(tier):
@@ -46,8 +46,10 @@ def evaluate(i, scn):
     if not c["wide"] and i % 2 == 0:
         # the same configuration on full-column-rank fields (adds the pattern-correlation clauses)
         cwf = CW.CrossWorld(c, seed=common.seed(), fullrank=True)
-        CW.check_cross(ck, scn, cwf, CW.fit(c, cwf), tag=("Complex" if c["dtype"] == "complex" else "") + c["fam"] + " (full rank)")
-    return dict(found=ck.found, P=ck.P, D=ck.D, M=ck.M, count={c["fam"]: 1})
+        mf = CW.fit(c, cwf)
+        CW.check_cross(ck, scn, cwf, mf, tag=("Complex" if c["dtype"] == "complex" else "") + c["fam"] + " (full rank)")
+        CW.check_regression(ck, scn, cwf, mf, tag=("Complex" if c["dtype"] == "complex" else "") + c["fam"] + " (full rank)")
+    return dict(found=ck.found, P=ck.P, D=ck.D, M=ck.M, X=ck.X, count={c["fam"]: 1})
 
 
 def frac_power(C, p):
